@@ -62,6 +62,19 @@ func c09Shapes(thorough bool) []gen.Spec {
 			}
 		}
 	}
+	// 3..7 replicate-flagged extension blocks (every fragment carries all of them; the per-fragment block list is
+	// as long as it gets)
+	many := []gen.BSpec{{Kind: "prev", S: []string{"dtn://prev/"}}, {Kind: "age", N: []uint64{9}}, {Kind: "hop", N: []uint64{64, 3}}, {Kind: "spray", N: []uint64{8}},
+		{Kind: "unk", N: []uint64{210}, Len: 1}, {Kind: "unk", N: []uint64{211}, Len: 2}, {Kind: "unk", N: []uint64{212}, Len: 3}}
+	for k := 3; k <= len(many); k++ {
+		s := base
+		for _, b := range many[:k] {
+			b.Flags = ref.BReplicate
+			b.CRC = uint64(k % 3)
+			s.Ext = append(s.Ext, b)
+		}
+		out = append(out, s)
+	}
 	// must-not-fragment and zero-time shapes
 	mnf := base
 	mnf.Flags = ref.FMustNotFrag
